@@ -181,7 +181,7 @@ def run(ctx: Ctx):
                   "reward term of the look-ahead is missing, discounted or carries another factor (e.g. the entropy weight)")
         ctx.check(len(fut) == 1 and fut[0]["disc"] == 1 and fut[0]["other"] == 1, "LOOK-1", f, qd, "look-ahead future term is exactly T*gamma*v", str(fut),
                   "future term of the look-ahead is missing, not discounted exactly once, or carries another factor")
-        ok = ast.unparse(qd.value).replace(" ", "").endswith(".sum(dim=-1)")
+        ok = ast.unparse(qd.value).replace(" ", "").endswith((".sum(axis=-1)", ".sum(axis=2)"))      # reductions are normalised to axis= (canon.py)
         ctx.check(ok, "LOOK-1", f, qd, "look-ahead sums the successor axis", "", "look-ahead does not sum over the successor axis")
         vname = env.get("v")
         ctx.check(vname is not None and f"{vname}[None,None,:]" in ast.unparse(qd.value).replace(" ", ""), "LOOK-1", f, qd, "state values are aligned with the successor axis", "", "state values are broadcast along the wrong axis")
